@@ -1,12 +1,546 @@
-//! C09 — monitor not built yet (stub so that the registry is complete).
+//! C09 — `Project::normalize_basic` establishes the IR invariants the analyses rely on.
+//!
+//! Monitor shape: invariant checker. Raw projects in the shape the P-Code extractor emits
+//! (generator of C08 with the irregularity knobs switched on) are normalized by the real
+//! `normalize_basic`; the result is judged against the documented contract of the four passes
+//! (duplicate removal, dangling references, block-to-function uniqueness, non-returning calls)
+//! and handed to the real CFG builder, whose output is judged by C08's specification.
+
+use crate::c08::{self, Knobs};
 use crate::core::*;
+use crate::irb::*;
+use crate::prng::Rng;
+use cwe_checker_lib::analysis::graph;
+use cwe_checker_lib::intermediate_representation::*;
+use serde_json::{json, Value};
+use std::collections::{BTreeMap, BTreeSet};
 
 pub fn info() -> CheckInfo {
     CheckInfo {
         id: "C09",
-        rule: "(monitor not built yet)",
-        assumptions: &[],
-        run: |_cfg| Report::new(),
-        replay: |_cfg, _case| Report::new(),
+        rule: "random raw projects (<= 6 functions, <= 8 blocks each, sub_*/blk_*/instr_* tids) with injected dangling branch/call/return/hint targets, blocks (entry and non-entry) jumped to from other functions, duplicated def/jmp/non-entry-block tids (same block emitted twice or a different block under the same tid), returning calls to no_return externs and to functions without Return, empty functions and recursion; after normalize_basic: (1) all tids unique, (2) every function still exists and starts with its original entry block, blocks/defs/jmps whose tid was not a duplicate are still there in order and the first occurrence of a duplicated def/jmp tid survives, (3) every branch/call/return/hint target exists, (4) every intraprocedural target is a block of the same function, (5) a target is the original one, its function-specific copy, or an artificial sink exactly where the contract says so, hints lose exactly the nonexisting entries, (6) copies of foreign blocks equal the original up to the tid suffix, (7) every returning call to a no_return extern or to a function without Return instruction returns to the caller's own artificial sink block, which exists, (8) get_program_cfg does not panic and, judged by C08's specification, is the right graph. non-trivial = normalization had to change something besides adding the sink function; distinct = hash of the raw program",
+        assumptions: &[
+            "domain guards: tids of functions and of entry blocks are never duplicated (two functions sharing an entry tid cannot keep both 'unique ids' and 'original entry'); duplicates stay within their class (def with def, jmp with jmp, block with block); at most two jumps per block; no raw tid uses the 'Artificial Sink' names; cases violating a guard (possible only in hand-edited replays) are inconclusive",
+            "'removal of duplicate TIDs' is read as: a term is a duplicate if an earlier term in program order (functions in map order, blocks in list order, defs then jmps) carries the same tid; the earlier one stays. Tids that also occur inside a block whose own tid is duplicated may disappear with that block, so nothing is demanded about them beyond uniqueness",
+            "'function without Return' is decided on the normalized program by the existence of a Return jump in any block of the callee (find_non_returning_subs documentation); the artificial sink function is not a callee in this sense; calls whose target was dangling may lose their return site",
+            "C08's specification is a correct reading of the CFG documentation",
+        ],
+        run,
+        replay,
     }
+}
+
+pub fn knobs_c09(rng: &mut Rng) -> Knobs {
+    Knobs {
+        max_subs: 6,
+        max_blocks: 8,
+        shared: *rng.pick(&[0u32, 1, 1, 2, 3]),
+        listed_shared: false,
+        dangling: rng.chance(3, 4),
+        dup_tids: rng.chance(2, 3),
+        unknown_calls: true,
+        callother: rng.chance(1, 3),
+        two_jump_variants: rng.chance(1, 2),
+    }
+}
+
+fn sfx(sub: &Tid) -> String {
+    format!("_{sub}")
+}
+
+fn is_any_sink_block(t: &Tid) -> bool {
+    t.is_artificial_sink_block("")
+}
+
+/// Same jump up to retargeting: same tid (plus `suffix`), same kind, same expressions.
+fn same_jump_modulo_targets(raw: &Term<Jmp>, norm: &Term<Jmp>, suffix: &str) -> bool {
+    if raw.tid.clone().with_id_suffix(suffix) != norm.tid {
+        return false;
+    }
+    match (&raw.term, &norm.term) {
+        (Jmp::Branch(_), Jmp::Branch(_)) => true,
+        (Jmp::CBranch { condition: a, .. }, Jmp::CBranch { condition: b, .. }) => a == b,
+        (Jmp::BranchInd(a), Jmp::BranchInd(b)) => a == b,
+        (Jmp::Return(a), Jmp::Return(b)) => a == b,
+        (Jmp::Call { .. }, Jmp::Call { .. }) => true,
+        (Jmp::CallInd { target: a, .. }, Jmp::CallInd { target: b, .. }) => a == b,
+        (Jmp::CallOther { description: a, .. }, Jmp::CallOther { description: b, .. }) => a == b,
+        _ => false,
+    }
+}
+
+fn intra_target(j: &Jmp) -> Option<&Tid> {
+    match j {
+        Jmp::Branch(t) | Jmp::CBranch { target: t, .. } => Some(t),
+        Jmp::Call { return_, .. } | Jmp::CallInd { return_, .. } | Jmp::CallOther { return_, .. } => return_.as_ref(),
+        _ => None,
+    }
+}
+
+#[derive(Clone, Copy, PartialEq, Eq, Debug)]
+enum Keep {
+    Must,
+    Optional,
+    Absent,
+}
+
+struct RawFacts<'a> {
+    subs: Vec<&'a Term<Sub>>,
+    block_count: BTreeMap<Tid, usize>,
+    /// tids of defs/jmps that occur inside a block whose own tid is duplicated
+    wild: BTreeSet<Tid>,
+    callables: BTreeSet<Tid>,
+}
+
+fn raw_facts(raw: &Project) -> Result<RawFacts<'_>, String> {
+    let p = &raw.program.term;
+    let subs: Vec<&Term<Sub>> = p.subs.values().collect();
+    let mut block_count: BTreeMap<Tid, usize> = BTreeMap::new();
+    let mut instr_tids: BTreeSet<Tid> = BTreeSet::new();
+    for s in &subs {
+        for b in &s.term.blocks {
+            *block_count.entry(b.tid.clone()).or_insert(0) += 1;
+            if b.term.jmps.len() > 2 {
+                return Err("more than two jumps in a block".into());
+            }
+            for t in b.term.defs.iter().map(|d| &d.tid).chain(b.term.jmps.iter().map(|j| &j.tid)) {
+                instr_tids.insert(t.clone());
+            }
+        }
+    }
+    let mut wild = BTreeSet::new();
+    for s in &subs {
+        for b in &s.term.blocks {
+            if block_count[&b.tid] > 1 {
+                wild.extend(b.term.defs.iter().map(|d| d.tid.clone()));
+                wild.extend(b.term.jmps.iter().map(|j| j.tid.clone()));
+            }
+        }
+    }
+    // guards
+    for s in &subs {
+        if block_count.contains_key(&s.tid) || instr_tids.contains(&s.tid) || s.tid == raw.program.tid {
+            return Err("a function tid is duplicated".into());
+        }
+        if let Some(e) = s.term.blocks.first() {
+            if block_count[&e.tid] != 1 {
+                return Err("an entry block tid is duplicated".into());
+            }
+        }
+        if format!("{}", s.tid).starts_with("Artificial Sink") {
+            return Err("raw program uses an artificial sink name".into());
+        }
+    }
+    for t in block_count.keys() {
+        if instr_tids.contains(t) || *t == raw.program.tid {
+            return Err("duplicate across classes".into());
+        }
+        if format!("{t}").starts_with("Artificial Sink") {
+            return Err("raw program uses an artificial sink name".into());
+        }
+    }
+    if instr_tids.contains(&raw.program.tid) {
+        return Err("duplicate across classes".into());
+    }
+    let mut callables: BTreeSet<Tid> = p.subs.keys().cloned().collect();
+    callables.extend(p.extern_symbols.keys().cloned());
+    Ok(RawFacts { subs, block_count, wild, callables })
+}
+
+/// Match the surviving terms `norm` (tid, equality test done by `same`) against the raw list with keep-status.
+fn match_survivors<T>(raw: &[(&Term<T>, Keep)], norm: &[Term<T>], same: &dyn Fn(&Term<T>, &Term<T>) -> bool) -> Result<Vec<usize>, String> {
+    let mut at = 0usize;
+    let mut mapping = Vec::new();
+    for n in norm {
+        loop {
+            if at >= raw.len() {
+                return Err(format!("term {} is not an original term of the block at this position (new, reordered or altered)", n.tid));
+            }
+            let (r, keep) = raw[at];
+            at += 1;
+            if keep != Keep::Absent && same(r, n) {
+                mapping.push(at - 1);
+                break;
+            }
+            if keep == Keep::Must {
+                return Err(format!("term {} was removed or altered although its tid is not a duplicate of an earlier term", r.tid));
+            }
+        }
+    }
+    for (r, keep) in &raw[at..] {
+        if *keep == Keep::Must {
+            return Err(format!("term {} was removed although its tid is not a duplicate of an earlier term", r.tid));
+        }
+    }
+    Ok(mapping)
+}
+
+fn strip<'a>(id: &'a str, suffix: &str) -> &'a str {
+    id.strip_suffix(suffix).unwrap_or(id)
+}
+
+pub fn check_normalize(raw: &Project, rep: &mut Report) -> bool {
+    rep.eval();
+    let case = || json!({"project": project_to_json(raw)});
+    let size = raw.program.term.subs.values().map(|s| 1 + s.term.blocks.iter().map(|b| 1 + b.term.defs.len() as u64 + b.term.jmps.len() as u64).sum::<u64>()).sum::<u64>();
+    let facts = match raw_facts(raw) {
+        Ok(f) => f,
+        Err(why) => {
+            rep.inconclusive(&format!("outside-domain:{why}"));
+            return false;
+        }
+    };
+    let mut norm = raw.clone();
+    if let Err(p) = guard(|| {
+        let _ = norm.normalize_basic();
+    }) {
+        rep.violation(format!("normalize_basic:panic:{}", panic_site(&p)), None, format!("normalize_basic panicked: {p}\n--- raw program:\n{}", show_program(&raw.program.term)), case(), size);
+        return true;
+    }
+    let np = &norm.program.term;
+    let mut violated = false;
+    let mut complain = |rep: &mut Report, sig: &str, detail: String| {
+        rep.violation(sig.to_string(), None, format!("{detail}\n--- raw program:\n{}--- after normalize_basic:\n{}", show_program(&raw.program.term), show_program(np)), case(), size);
+        violated = true;
+    };
+
+    // (1) unique tids
+    {
+        let mut seen: BTreeSet<Tid> = BTreeSet::new();
+        let mut dups: Vec<String> = Vec::new();
+        let mut add = |t: &Tid, what: &str| {
+            if !seen.insert(t.clone()) {
+                dups.push(format!("{what} {t}"));
+            }
+        };
+        add(&norm.program.tid, "program");
+        for s in np.subs.values() {
+            add(&s.tid, "function");
+            for b in &s.term.blocks {
+                add(&b.tid, "block");
+                for d in &b.term.defs {
+                    add(&d.tid, "def");
+                }
+                for j in &b.term.jmps {
+                    add(&j.tid, "jmp");
+                }
+            }
+        }
+        if let Some(first) = dups.first() {
+            let class = first.split(' ').next().unwrap_or("");
+            complain(rep, &format!("tid-not-unique:{class}"), format!("tids are not unique after normalization: {}", dups.join(", ")));
+        }
+    }
+
+    // (2) functions, entry blocks, preservation of non-duplicate terms; (5) retargeting; hints
+    let raw_block_exists = |t: &Tid| facts.block_count.contains_key(t);
+    let mut seen_instr: BTreeSet<Tid> = BTreeSet::new();
+    // callee classification on the normalized program
+    let callee_never_returns = |target: &Tid| -> bool {
+        if let Some(e) = np.extern_symbols.get(target) {
+            return e.no_return;
+        }
+        match np.subs.get(target) {
+            Some(s) if !s.tid.is_artificial_sink_sub() => !s.term.blocks.iter().any(|b| b.term.jmps.iter().any(|j| matches!(j.term, Jmp::Return(_)))),
+            _ => false,
+        }
+    };
+    for rs in &facts.subs {
+        let s = &rs.tid;
+        let suffix = sfx(s);
+        let Some(ns) = np.subs.get(s) else {
+            complain(rep, "function-removed", format!("function {s} does not exist after normalization"));
+            // keep the program-order bookkeeping going
+            for b in &rs.term.blocks {
+                if facts.block_count[&b.tid] == 1 {
+                    seen_instr.extend(b.term.defs.iter().map(|d| d.tid.clone()));
+                    seen_instr.extend(b.term.jmps.iter().map(|j| j.tid.clone()));
+                }
+            }
+            continue;
+        };
+        if let Some(entry) = rs.term.blocks.first() {
+            match ns.term.blocks.first() {
+                Some(ne) if ne.tid == entry.tid => (),
+                Some(ne) => complain(rep, "entry-block-changed", format!("function {s} started with block {} and now starts with {}", entry.tid, ne.tid)),
+                None => complain(rep, "entry-block-changed", format!("function {s} started with block {} and is now empty", entry.tid)),
+            }
+        }
+        let mut last_pos: Option<usize> = None;
+        for (bi, rb) in rs.term.blocks.iter().enumerate() {
+            if facts.block_count[&rb.tid] != 1 {
+                continue; // duplicated block tid: only uniqueness is demanded
+            }
+            // keep-status of defs and jmps in program order
+            let mut status = |t: &Tid| -> Keep {
+                if facts.wild.contains(t) {
+                    Keep::Optional
+                } else if seen_instr.insert(t.clone()) {
+                    Keep::Must
+                } else {
+                    Keep::Absent
+                }
+            };
+            let defs: Vec<(&Term<Def>, Keep)> = rb.term.defs.iter().map(|d| (d, status(&d.tid))).collect();
+            let jmps: Vec<(&Term<Jmp>, Keep)> = rb.term.jmps.iter().map(|j| (j, status(&j.tid))).collect();
+            let Some(pos) = ns.term.blocks.iter().position(|b| b.tid == rb.tid) else {
+                complain(rep, "block-removed", format!("block {} of {s} was removed although its tid is not duplicated", rb.tid));
+                continue;
+            };
+            if let Some(lp) = last_pos {
+                if pos < lp {
+                    complain(rep, "blocks-reordered", format!("block {} of {s} moved before an earlier original block", rb.tid));
+                }
+            }
+            last_pos = Some(pos);
+            let nb = &ns.term.blocks[pos];
+            let what = if bi == 0 { "entry-block-content" } else { "block-content" };
+            if let Err(e) = match_survivors(&defs, &nb.term.defs, &|r, n| r == n) {
+                complain(rep, &format!("{what}:defs"), format!("defs of block {} in {s}: {e}", rb.tid));
+            }
+            match match_survivors(&jmps, &nb.term.jmps, &|r, n| same_jump_modulo_targets(r, n, "")) {
+                Err(e) => complain(rep, &format!("{what}:jmps"), format!("jmps of block {} in {s}: {e}", rb.tid)),
+                Ok(mapping) => {
+                    // (5) every target is the original, its copy for this function, or a sink where the contract says so
+                    for (nj, ri) in nb.term.jmps.iter().zip(mapping) {
+                        let rj = jmps[ri].0;
+                        let mut call_target_dangling = false;
+                        if let (Jmp::Call { target: rt, .. }, Jmp::Call { target: nt, .. }) = (&rj.term, &nj.term) {
+                            if facts.callables.contains(rt) {
+                                if nt != rt {
+                                    complain(rep, "retarget:call-target-changed", format!("call {} in {s}: existing target {rt} became {nt}", nj.tid));
+                                }
+                            } else {
+                                call_target_dangling = true;
+                                if !nt.is_artificial_sink_sub() {
+                                    complain(rep, "retarget:dangling-call-target", format!("call {} in {s}: nonexisting target {rt} became {nt}, expected the artificial sink function", nj.tid));
+                                }
+                            }
+                        }
+                        match (intra_target(&rj.term), intra_target(&nj.term)) {
+                            (None, None) => (),
+                            (None, Some(x)) => complain(rep, "retarget:target-invented", format!("jump {} in {s} had no target/return site and now has {x}", nj.tid)),
+                            (Some(r), None) => {
+                                if !call_target_dangling {
+                                    complain(rep, "retarget:target-lost", format!("jump {} in {s} lost its target/return site {r}", nj.tid));
+                                }
+                            }
+                            (Some(r), Some(x)) => {
+                                let own_sink = Tid::artificial_sink_block(&suffix);
+                                let is_call = matches!(nj.term, Jmp::Call { .. });
+                                let sink_by_noreturn = if let Jmp::Call { target, .. } = &nj.term { callee_never_returns(target) } else { false };
+                                if raw_block_exists(r) {
+                                    let copy = r.clone().with_id_suffix(&suffix);
+                                    let ok = x == r || *x == copy || (is_call && sink_by_noreturn && *x == own_sink);
+                                    if !ok {
+                                        complain(rep, "retarget:existing-target-changed", format!("jump {} in {s}: target/return site {r} exists but became {x} (allowed: {r}, {copy}{})", nj.tid, if is_call { ", own sink if the callee never returns" } else { "" }));
+                                    }
+                                } else if !is_any_sink_block(x) {
+                                    complain(rep, "retarget:dangling-target", format!("jump {} in {s}: nonexisting target/return site {r} became {x}, expected an artificial sink block", nj.tid));
+                                }
+                            }
+                        }
+                    }
+                }
+            }
+            // hints: exactly the existing ones, in order, possibly with the function suffix
+            let want: Vec<&Tid> = rb.term.indirect_jmp_targets.iter().filter(|t| raw_block_exists(t)).collect();
+            let got = &nb.term.indirect_jmp_targets;
+            let ok = want.len() == got.len() && want.iter().zip(got).all(|(w, g)| *w == g || (*w).clone().with_id_suffix(&suffix) == *g);
+            if !ok {
+                complain(rep, "hints-changed", format!("indirect jump hints of block {} in {s}: expected {:?} (each possibly with suffix {suffix}), observed {:?}", rb.tid, want.iter().map(|t| format!("{t}")).collect::<Vec<_>>(), got.iter().map(|t| format!("{t}")).collect::<Vec<_>>()));
+            }
+        }
+    }
+
+    // (3) targets exist, (4) intraprocedural targets stay inside the function, (7) non-returning calls, (6) copies
+    let all_blocks: BTreeMap<&Tid, &Term<Blk>> = np.subs.values().flat_map(|s| s.term.blocks.iter().map(|b| (&b.tid, b))).collect();
+    for ns in np.subs.values() {
+        let s = &ns.tid;
+        let suffix = sfx(s);
+        let own: BTreeSet<&Tid> = ns.term.blocks.iter().map(|b| &b.tid).collect();
+        let own_sink = Tid::artificial_sink_block(&suffix);
+        let raw_listed: BTreeSet<&Tid> = raw.program.term.subs.get(s).map(|r| r.term.blocks.iter().map(|b| &b.tid).collect()).unwrap_or_default();
+        for b in &ns.term.blocks {
+            let mut intra: Vec<(&Tid, String)> = Vec::new();
+            for j in &b.term.jmps {
+                match &j.term {
+                    Jmp::Branch(t) | Jmp::CBranch { target: t, .. } => intra.push((t, format!("target of {}", j.tid))),
+                    Jmp::Call { target, return_ } => {
+                        if !np.subs.contains_key(target) && !np.extern_symbols.contains_key(target) {
+                            complain(rep, "dangling:call-target", format!("call {} in {s} targets {target}, which is neither a function nor an extern symbol", j.tid));
+                        }
+                        if let Some(r) = return_ {
+                            intra.push((r, format!("return site of {}", j.tid)));
+                            if !s.is_artificial_sink_sub() && callee_never_returns(target) {
+                                rep.obs("result:returning-call-to-non-returning-callee");
+                                if *r != own_sink {
+                                    complain(rep, "non-returning-call-not-retargeted", format!("call {} in {s} to {target} (no_return extern or function without Return) returns to {r}, expected {own_sink}", j.tid));
+                                } else if !own.contains(&own_sink) {
+                                    complain(rep, "sink-block-missing", format!("call {} in {s} returns to {own_sink}, but {s} has no such block", j.tid));
+                                }
+                            }
+                        }
+                    }
+                    Jmp::CallInd { return_: Some(r), .. } | Jmp::CallOther { return_: Some(r), .. } => intra.push((r, format!("return site of {}", j.tid))),
+                    _ => (),
+                }
+            }
+            for t in &b.term.indirect_jmp_targets {
+                intra.push((t, format!("indirect jump hint of block {}", b.tid)));
+            }
+            for (t, what) in intra {
+                if !all_blocks.contains_key(t) {
+                    complain(rep, "dangling:intraprocedural-target", format!("{what} in {s} is {t}, which is not a block of the program"));
+                } else if !own.contains(t) {
+                    complain(rep, "target-in-other-function", format!("{what} in {s} is {t}, which is a block of another function"));
+                }
+            }
+            // (6) blocks that the function did not list originally
+            if s.is_artificial_sink_sub() || raw_listed.contains(&b.tid) {
+                continue;
+            }
+            let id = format!("{}", b.tid);
+            if is_any_sink_block(&b.tid) && b.tid.has_id_suffix(&suffix) {
+                if !b.term.defs.is_empty() || !b.term.jmps.is_empty() || !b.term.indirect_jmp_targets.is_empty() {
+                    complain(rep, "sink-block-not-empty", format!("artificial sink block {} of {s} is not empty", b.tid));
+                }
+                rep.obs("result:function-with-sink-block");
+                continue;
+            }
+            let home = id.strip_suffix(suffix.as_str()).and_then(|base| all_blocks.iter().find(|(t, _)| format!("{t}") == base && t.address == b.tid.address).map(|(_, hb)| *hb));
+            let Some(home) = home else {
+                complain(rep, "unexpected-block", format!("block {} of {s} is neither an original block of {s}, nor its sink, nor a copy '<block>{suffix}' of a block of the program", b.tid));
+                continue;
+            };
+            rep.obs("result:copied-block");
+            let home_sub = np.subs.values().find(|x| x.term.blocks.iter().any(|hb| hb.tid == home.tid)).map(|x| sfx(&x.tid)).unwrap_or_default();
+            let defs_ok = home.term.defs.len() == b.term.defs.len() && home.term.defs.iter().zip(&b.term.defs).all(|(h, c)| h.term == c.term && h.tid.clone().with_id_suffix(&suffix) == c.tid);
+            let jmps_ok = home.term.jmps.len() == b.term.jmps.len()
+                && home.term.jmps.iter().zip(&b.term.jmps).all(|(h, c)| {
+                    same_jump_modulo_targets(h, c, &suffix)
+                        && match (intra_target(&h.term), intra_target(&c.term)) {
+                            (None, None) => true,
+                            (Some(ht), Some(ct)) => strip(&format!("{ht}"), &home_sub) == strip(&format!("{ct}"), &suffix),
+                            _ => false,
+                        }
+                        && match (&h.term, &c.term) {
+                            (Jmp::Call { target: a, .. }, Jmp::Call { target: b, .. }) => a == b,
+                            _ => true,
+                        }
+                });
+            let hints_ok = home.term.indirect_jmp_targets.len() == b.term.indirect_jmp_targets.len()
+                && home.term.indirect_jmp_targets.iter().zip(&b.term.indirect_jmp_targets).all(|(h, c)| strip(&format!("{h}"), &home_sub) == strip(&format!("{c}"), &suffix));
+            if !(defs_ok && jmps_ok && hints_ok) {
+                complain(rep, "copy-differs-from-original", format!("block {} of {s} is not a copy of block {} (defs equal: {defs_ok}, jmps equal up to retargeting: {jmps_ok}, hints equal up to retargeting: {hints_ok})", b.tid, home.tid));
+            }
+        }
+    }
+
+    // (8) the CFG builder accepts the result and builds the right graph
+    match guard(|| graph::get_program_cfg(&norm.program).node_count()) {
+        Err(p) => complain(rep, &format!("cfg-panic:{}", panic_site(&p)), format!("get_program_cfg panicked on the normalized program: {p}")),
+        Ok(_) => {
+            let case_n = || json!({"project": project_to_json(raw), "note": "C08 specification applied to the graph of the normalized program"});
+            let o = c08::check_cfg(&norm.program, "cfg-after-normalize", rep, &case_n);
+            violated |= o.violated;
+        }
+    }
+
+    // bookkeeping
+    let changed = np.subs.iter().filter(|(t, _)| !t.is_artificial_sink_sub()).map(|(_, s)| s).ne(raw.program.term.subs.values());
+    if changed {
+        rep.nontrivial(fp_of(&raw.program));
+    }
+    observe_irregularities(raw, &facts, rep);
+    violated
+}
+
+fn observe_irregularities(raw: &Project, facts: &RawFacts, rep: &mut Report) {
+    let p = &raw.program.term;
+    let mut seen: BTreeSet<&Tid> = BTreeSet::new();
+    let mut feats: BTreeSet<&'static str> = BTreeSet::new();
+    for s in &facts.subs {
+        if s.term.blocks.is_empty() {
+            feats.insert("raw:empty-function");
+        }
+        let listed: BTreeSet<&Tid> = s.term.blocks.iter().map(|b| &b.tid).collect();
+        let entries: BTreeSet<&Tid> = facts.subs.iter().filter_map(|x| x.term.blocks.first().map(|b| &b.tid)).collect();
+        for b in &s.term.blocks {
+            if facts.block_count[&b.tid] > 1 {
+                feats.insert("raw:duplicated-block-tid");
+            }
+            for d in &b.term.defs {
+                if !seen.insert(&d.tid) {
+                    feats.insert("raw:duplicated-def-tid");
+                }
+            }
+            for j in &b.term.jmps {
+                if !seen.insert(&j.tid) {
+                    feats.insert("raw:duplicated-jmp-tid");
+                }
+                if let Some(t) = intra_target(&j.term) {
+                    if !facts.block_count.contains_key(t) {
+                        feats.insert(if matches!(j.term, Jmp::Branch(_) | Jmp::CBranch { .. }) { "raw:dangling-branch-target" } else { "raw:dangling-return-site" });
+                    } else if !listed.contains(t) {
+                        feats.insert(if entries.contains(t) { "raw:target-is-entry-block-of-other-function" } else { "raw:target-in-other-function" });
+                    }
+                }
+                if let Jmp::Call { target, return_ } = &j.term {
+                    if !facts.callables.contains(target) {
+                        feats.insert("raw:dangling-call-target");
+                    }
+                    if *target == s.tid {
+                        feats.insert("raw:self-recursion");
+                    }
+                    if return_.is_some() && p.extern_symbols.get(target).map(|e| e.no_return).unwrap_or(false) {
+                        feats.insert("raw:returning-call-to-no_return-extern");
+                    }
+                }
+            }
+            for t in &b.term.indirect_jmp_targets {
+                if !facts.block_count.contains_key(t) {
+                    feats.insert("raw:dangling-hint");
+                } else if !listed.contains(t) {
+                    feats.insert("raw:hint-in-other-function");
+                }
+            }
+        }
+    }
+    for f in feats {
+        rep.obs(f);
+    }
+}
+
+fn run(cfg: &Cfg) -> Report {
+    let shards = cfg.tier.pick(256usize, 2048usize);
+    let per_shard = cfg.tier.pick(700usize, 2500usize);
+    par_shards(cfg, "c09", shards, |idx, rng, rep| {
+        for i in 0..per_shard {
+            let knobs = knobs_c09(rng);
+            let project = c08::gen_program(rng, &knobs);
+            let violated = check_normalize(&project, rep);
+            if idx == 0 && i < 60 && !violated && project.program.term.subs.len() == 2 && rep.wants_sample() {
+                let mut n = project.clone();
+                let logs = n.normalize_basic();
+                rep.sample(json!({
+                    "raw_program": show_program(&project.program.term),
+                    "normalized_program": show_program(&n.program.term),
+                    "log_messages": logs.iter().map(|l| format!("{l}")).collect::<Vec<_>>(),
+                    "verdict": "all invariants hold; CFG built and equal to the specification",
+                }));
+            }
+        }
+    })
+}
+
+fn replay(_cfg: &Cfg, case: &Value) -> Report {
+    let mut rep = Report::new();
+    match project_from_json(&case["project"]) {
+        Ok(project) => {
+            check_normalize(&project, &mut rep);
+        }
+        Err(e) => rep.note(format!("cannot parse replay case: {e}")),
+    }
+    rep
 }
